@@ -1,7 +1,7 @@
 """C08 — separators affect only reading and printing of numbers, never the computed value."""
 import re
 from tools import common as C, wire, oracle as O
-from tools.gen import lines as L
+from tools.gen import lines as L, corpus
 
 LEAN_MODULES = ["SCP.C08", "SCP.C08Code"]
 THEOREMS = ["SCP.C08." + t for t in "strReplace_single read_write read_write_no_thousands read_same_number calc_ignores_separators".split()] + \
@@ -75,6 +75,11 @@ def gen_line(rng):
         return rng.choice([f"{v} {a} to {b}", f"{v} {a} + {L.num(rng)} {b}", f"{v} {a} * 1,5", f"{v} {a} / 2,5 {b}"])
     if k < 0.5:
         return "x = " + L.value_line(rng) + "\nx * 1,5\ny = x\ny"
+    for _ in range(5):
+        lg, t = corpus.line(rng)
+        # literals that are already written with the thousands separator are left to the rewriter of this module
+        if lg == "en" and not re.search(r"\d\.\d", t):
+            return t
     return L.value_line(rng)
 
 
